@@ -73,7 +73,7 @@ Proof.
   exact (conj (cross_antisym s1 l1 s2 l2 a1 b1 c1 a2 b2 c2 H) (cross_orthogonal_lagrange s1 l1 s2 l2 a1 b1 c1 a2 b2 c2 H)).
 Qed.
 
-(* unit: norm one and parallel (planar; the spatial/lorentz unit variants are covered by the search only) *)
+(* unit: norm one and parallel (planar; the spatial / lorentz variants are the next theorem) *)
 Theorem C11_planar_unit_partial : forall s a b, pos_az s a b ->
   match den2 (T_planar_unit s a b) with
   | Some (u, v) => u * u + v * v = 1 /\ u * sy s a b - v * sx s a b = 0 /\ 0 < u * sx s a b + v * sy s a b
